@@ -1,6 +1,7 @@
 import N0Verif.Proofs.FindAll
 import N0Verif.Proofs.FindAllDesc
 import N0Verif.Proofs.FindAllList
+import N0Verif.Proofs.FindAllTail
 import N0Verif.Props.C01
 /-!
 # C19 — dictionary findall returns complete, resolvable, history-independent results
@@ -309,26 +310,52 @@ theorem C19_descendant_complete_iff (cls : Cls) (kvs : List (Str × Val)) (name 
   · rintro ⟨q, hg, rfl⟩
     exact ⟨(q ++ [.key name], v), (C19_descendant_positions _ name hk _ v).2 ⟨⟨q, rfl⟩, hg⟩, rfl, rfl⟩
 
-/-- **Stated, not proved: the descendant wildcard with a two-step tail `'//*/name/sub'`.**  On a
-dict-rooted tree with `KeysOkV`, `ContOkV` in which no node called `name` is a list (below a list
-the step `sub` fans out, which needs its own rendering), the result is exactly the entries `sub`
-of the dictionaries called `name`, at any depth: a node called `name` that is a final element or a
-dictionary without `sub` is a miss of that branch (fix C19-d) and the search goes on.
-The soundness half (every pair of the result is a real node under the key reported) is
-`C19_keys_spell` / `C19_resolves_all`, which hold for every expression; the completeness half would
-need the induction of `Proofs/FindAllDesc.lean` (`FadPV`/`FadPK`/`FadPL`, written for the token list
-`['*', name]`) redone for a longer tail.  It is checked on the implementation (evaluator `descendant`,
-cases with `sub`, against an independent DFS oracle, lists under `name` included) and on the model
-by the streams; `C19_step_below_scalar_fixed` is an instance. -/
-def C19_descendant_tail_stmt : Prop :=
-  ∀ (cls : Cls) (kvs : List (Str × Val)) (name sub : Str), PlainKey name → PlainKey sub →
-    KeysOkV (.dict cls kvs) → ContOkV (.dict cls kvs) →
-    (∀ p w, (p, w) ∈ descV name (.dict cls kvs) → ∀ c xs, w ≠ .list c xs) →
-    ∀ re : Bool, ∃ n, ∀ fuel ≥ n, ∃ f,
+/-- **Completeness of the descendant wildcard with a two-step tail, `'//*/name/sub'`.**  On a
+dict-rooted tree with `KeysOkV`, `ContOkV` in which no entry called `name` is a list (`NnlV`: below a
+list the step `sub` fans out, which has its own rendering), the result is exactly — in document
+order — the entries `sub` of the dictionaries called `name`, at any depth
+(`tailOf sub (descV name root)`).  A node called `name` that is a final element, or a dictionary
+without `sub`, is a miss of that branch (fix C19-d: before, the first such node aborted the whole
+search with `KeyError("Internal error…")`) and the search goes on with the other branches. -/
+theorem C19_descendant_tail (cls : Cls) (kvs : List (Str × Val)) (name sub : Str)
+    (hn : PlainKey name) (hs : PlainKey sub)
+    (hk : KeysOkV (.dict cls kvs)) (hc : ContOkV (.dict cls kvs)) (hl : NnlV name (.dict cls kvs))
+    (re : Bool := true) :
+    ∃ n, ∀ fuel ≥ n,
+      (findallTop fuel fresh (.dict cls kvs) (['/', '/', '*', '/'] ++ name ++ ['/'] ++ sub) re).res =
+        .ok (some ((tailOf sub (descV name (.dict cls kvs))).map (fun pv => (slash ++ renderPos pv.1, pv.2)))) := by
+  obtain ⟨n, hN⟩ := fat_descendant re hn hs cls kvs hk hc hl
+  refine ⟨n, fun fuel hf => ?_⟩
+  show (fa re fuel _ (tokens _) [] []).res = _
+  rw [fat_tokens hn hs]
+  exact hN fuel hf
+
+/-- **Both inclusions**: the pairs listed are exactly the nodes at the positions that end with the
+keys `name`, `sub` — every such node, at any depth, and nothing else -/
+theorem C19_descendant_tail_positions (t : Val) (name sub : Str) (hk : KeysOkV t) (p : Pos) (v : Val) :
+    (p, v) ∈ tailOf sub (descV name t) ↔
+      ∃ q, p = q ++ [.key name, .key sub] ∧ getAt t p = some v :=
+  fat_tail_mem_getAt name sub t hk p v
+
+/-- the statement in the form "found iff it is the node at a position `…/name/sub`" -/
+theorem C19_descendant_tail_iff (cls : Cls) (kvs : List (Str × Val)) (name sub : Str)
+    (hn : PlainKey name) (hs : PlainKey sub)
+    (hk : KeysOkV (.dict cls kvs)) (hc : ContOkV (.dict cls kvs)) (hl : NnlV name (.dict cls kvs))
+    (re : Bool := true) :
+    ∃ n, ∀ fuel ≥ n, ∃ f,
       (findallTop fuel fresh (.dict cls kvs) (['/', '/', '*', '/'] ++ name ++ ['/'] ++ sub) re).res = .ok (some f) ∧
       ∀ xp v, (xp, v) ∈ f ↔
-        ∃ p, getAt (.dict cls kvs) (p ++ [.key name, .key sub]) = some v ∧
-          xp = slash ++ renderPos (p ++ [.key name, .key sub])
+        ∃ q, getAt (.dict cls kvs) (q ++ [.key name, .key sub]) = some v ∧
+          xp = slash ++ renderPos (q ++ [.key name, .key sub]) := by
+  obtain ⟨n, hN⟩ := C19_descendant_tail cls kvs name sub hn hs hk hc hl re
+  refine ⟨n, fun fuel hf => ⟨_, hN fuel hf, fun xp v => ?_⟩⟩
+  simp only [List.mem_map, Prod.mk.injEq]
+  constructor
+  · rintro ⟨⟨p, w⟩, hm, rfl, rfl⟩
+    obtain ⟨q, rfl, hg⟩ := (C19_descendant_tail_positions _ name sub hk p w).1 hm
+    exact ⟨q, hg, rfl⟩
+  · rintro ⟨q, hg, rfl⟩
+    exact ⟨(q ++ [.key name, .key sub], v), (C19_descendant_tail_positions _ name sub hk _ v).2 ⟨q, rfl, hg⟩, rfl, rfl⟩
 
 /-! ## 6. every key resolves
 
@@ -428,6 +455,20 @@ theorem C19_raise_exception_threaded :
     (findallTop 20 fresh exMiss ['.', '.']).res = .error .KeyError :=
   ⟨by decide, by decide, by decide, by decide, by decide, by decide, by decide, by decide⟩
 
+-- `C19_descendant_tail`: the hypotheses hold for `exMiss` (no entry `name` is a list); the nodes it must find:
+-- `x/name` is a final element (a miss), `y/name` a dictionary with `first`, `l[0]/name` a final element
+example : KeysOkV exMiss ∧ ContOkV exMiss ∧ NnlV ['n', 'a', 'm', 'e'] exMiss := by
+  have pk : ∀ k : Str, k ≠ [] → (∀ c ∈ k, plainChar c = true) → k ≠ ['.', '.'] → PlainKey k :=
+    fun k h1 h2 h3 => ⟨h1, h2, h3⟩
+  simp only [exMiss, KeysOkV, KeysOkK, KeysOkL, ContOkV, ContOkK, ContOkL, NnlV, NnlK, NnlL, lookup, FindAll.isContainer]
+  refine ⟨?_, by decide, ?_⟩
+  · repeat' apply And.intro
+    all_goals first | exact pk _ (by decide) (by decide) (by decide) | trivial | decide
+  · repeat' apply And.intro
+    all_goals first | trivial | (intro c xs h; revert h; simp)
+example : tailOf ['f', 'i', 'r', 's', 't'] (descV ['n', 'a', 'm', 'e'] exMiss) =
+    [([.key ['y'], .key ['n', 'a', 'm', 'e'], .key ['f', 'i', 'r', 's', 't']], .str ['f'])] := by
+  simp [exMiss, descV, descK, descL, lookup, tailOf, tl1]
 -- `C19_scalar_step_miss`: its hypotheses hold for a string node and a name / an index / `[*]`
 example : FindAll.isContainer (.str ['x']) = false ∧ classify ['c'] = .name ['c'] ∧
     classify ['[', '0', ']'] = .idx 0 ∧ classify ['[', '*', ']'] = .star := by decide
